@@ -30,22 +30,23 @@ Section Euclid.
   Variable w : Z -> Z.
   Variable M : Z.
   Hypothesis Hw : forall z, 0 <= z <= M -> w z = z.
-  Variables a b g : Z.
+  Variables a b : Z.
   Hypothesis Hb : 0 < b <= M.
 
-  Definition ee_inv (u0 u1 r1 d : Z) (neg : bool) : Prop :=
+  (* the comment in the code, made exact: cofactor identity, gcd preserved, and the two sign-dependent congruences *)
+  Definition ee_inv (g u0 u1 r1 d : Z) (neg : bool) : Prop :=
     0 <= u0 <= b /\ 0 <= u1 /\ 0 <= r1 <= M /\ 0 < d <= M /\ u0 * r1 + u1 * d = b /\ Z.gcd d r1 = g /\
     (if neg then eqm b (u0 * a) (- d) /\ eqm b (u1 * a) r1 else eqm b (u0 * a) d /\ eqm b (u1 * a) (- r1)).
 
-  Lemma ee_loop_spec fuel : forall u0 u1 r1 d neg,
-    ee_inv u0 u1 r1 d neg -> (Z.to_nat r1 < fuel)%nat ->
+  Lemma ee_loop_spec g fuel : forall u0 u1 r1 d neg,
+    ee_inv g u0 u1 r1 d neg -> (Z.to_nat r1 < fuel)%nat ->
     exists u0' neg', ee_loop w fuel u0 u1 r1 d neg = Some (u0', g, neg') /\ 0 <= u0' <= b /\
       (if neg' then eqm b (u0' * a) (- g) else eqm b (u0' * a) g).
   Proof.
     induction fuel as [|f IH]; intros u0 u1 r1 d neg Hinv Hf; [lia|].
     destruct Hinv as (Hu0 & Hu1 & Hr1 & Hd & Hid & Hg & Hc).
     cbn [ee_loop]. destruct (Z.eqb_spec r1 0) as [E|E].
-    - subst r1. exists u0, neg. rewrite Z.gcd_0_r in Hg. rewrite Z.abs_eq in Hg by lia. subst g.
+    - subst r1. exists u0, neg. rewrite Z.gcd_0_r in Hg. rewrite Z.abs_eq in Hg by lia. rewrite <- Hg.
       split; [reflexivity|]. split; [exact Hu0|]. destruct neg; tauto.
     - assert (Hq : Z.quot d r1 = d / r1) by (apply Z.quot_div_nonneg; lia).
       rewrite Hq. set (q := d / r1).
@@ -62,7 +63,7 @@ Section Euclid.
       apply IH.
       + unfold ee_inv. split; [nia|]. split; [nia|]. split; [lia|]. split; [lia|]. split; [exact Hid'|].
         split.
-        * rewrite Hrem. rewrite Z.gcd_comm. rewrite Z.gcd_mod by lia. exact Hg.
+        * rewrite Hrem. rewrite Z.gcd_comm. rewrite Z.gcd_mod by lia. rewrite Z.gcd_comm. exact Hg.
         * destruct neg; cbn [negb]; destruct Hc as [C0 C1].
           -- split; [exact C1|].
              replace ((q * u1 + u0) * a) with (q * (u1 * a) + u0 * a) by ring. rewrite C0, C1.
@@ -73,23 +74,21 @@ Section Euclid.
       + lia.
   Qed.
 
-  Hypothesis Ha : 0 <= a <= M.
-  Hypothesis Hgcd : Z.gcd b a = g.
-
-  Lemma ee_inv_init : ee_inv 0 1 a b true.
+  Lemma ee_inv_init g : 0 <= a <= M -> Z.gcd b a = g -> ee_inv g 0 1 a b true.
   Proof.
-    unfold ee_inv. repeat split; try lia.
-    - exact Hgcd.
+    intros Ha Hg. unfold ee_inv.
+    split; [lia|]. split; [lia|]. split; [lia|]. split; [lia|]. split; [lia|]. split; [exact Hg|].
+    split.
     - rewrite Z.mul_0_l. replace (- b) with (b * -1) by ring. rewrite (eqm_mul_n_l b (-1)). reflexivity.
     - rewrite Z.mul_1_l. reflexivity.
   Qed.
 
-  (* extended_euclid returns (x, gcd) with x canonical and x * a = gcd (mod b) *)
-  Lemma extended_euclid_spec : 1 < b ->
+  (* extended_euclid returns (x, gcd) with 0 <= x <= b and x * a = gcd (mod b) *)
+  Lemma extended_euclid_spec g : 0 <= a <= M -> Z.gcd b a = g ->
     exists x, extended_euclid w a b = Some (x, g) /\ 0 <= x <= b /\ eqm b (x * a) g.
   Proof.
-    intros Hb1. unfold extended_euclid.
-    destruct (ee_loop_spec (S (Z.to_nat (Z.abs a))) 0 1 a b true ee_inv_init) as (u0 & neg & E & Hu & Hc).
+    intros Ha Hg. unfold extended_euclid.
+    destruct (ee_loop_spec g (S (Z.to_nat (Z.abs a))) 0 1 a b true (ee_inv_init g Ha Hg)) as (u0 & neg & E & Hu & Hc).
     { rewrite Z.abs_eq by lia. lia. }
     rewrite E. destruct neg; cbn [andb].
     - destruct (Z.ltb_spec 0 u0).
@@ -106,7 +105,7 @@ Lemma invext_spec w M a b : (forall z, 0 <= z <= M -> w z = z) -> 1 < b <= M -> 
   exists x, invext w a b = Some x /\ 0 <= x < b /\ eqm b (x * a) 1.
 Proof.
   intros Hw Hb Ha Hg.
-  destruct (extended_euclid_spec w M Hw a b 1 ltac:(lia) Ha Hg ltac:(lia)) as (x & E & Hx & Hc).
+  destruct (extended_euclid_spec w M Hw a b ltac:(lia) 1 Ha Hg) as (x & E & Hx & Hc).
   exists x. unfold invext. rewrite E. split; [reflexivity|]. split; [|exact Hc].
   destruct (Z.eq_dec x b) as [->|]; [|lia].
   exfalso. rewrite (eqm_mul_n_l b a) in Hc. unfold eqm in Hc. rewrite Z.mod_0_l, Z.mod_1_l in Hc by lia. discriminate.
@@ -122,4 +121,62 @@ Proof.
   assert (Hne : Z.gcd p 2 <> 0) by (intros E; apply Z.gcd_eq_0_r in E; lia).
   destruct (Z.eq_dec (Z.gcd p 2) 2) as [E|E]; [|lia].
   rewrite E in Hl. destruct Hl as [k Hk]. subst p. rewrite Z.mul_comm in Ho. rewrite Z.odd_mul in Ho. discriminate.
+Qed.
+
+(* ------------------------------------------------------------------ the ring record and its invariant *)
+Record wf32 (F : mg32) : Prop := Wf32 {
+  wf_adm : admissible (m_p F);
+  wf_nim : 0 <= m_nim F < B32;
+  wf_nim_eq : (m_p F * m_nim F + 1) mod B32 = 0;             (* _nim = -1/p mod B *)
+  wf_Bp : m_Bp F = B32 mod m_p F;
+  wf_B2p : m_B2p F = (B32 * B32) mod m_p F;
+  wf_B3p : m_B3p F = (B32 * B32 * B32) mod m_p F;
+  wf_one : m_one F = B32 mod m_p F;
+  wf_mOne : m_mOne F = m_p F - B32 mod m_p F
+}.
+
+Lemma adm_bounds p : admissible p -> 3 <= p /\ p < B32 /\ p * B32 < W32 /\ p < W32.
+Proof.
+  intros [[H3 Hm] _]. pose proof param_max_lt_B. pose proof param_B_word. pose proof param_B_pos.
+  repeat split; try lia; nia.
+Qed.
+
+Lemma u32_s32_small_facts : (forall z, 0 <= z <= W32 - 1 -> u32 z = z) /\ (forall z, 0 <= z <= 2147483647 -> s32 z = z).
+Proof. split; intros z Hz; [apply u32_small; lia | apply s32_small; lia]. Qed.
+
+(* constructor: Montgomery(Residu_t p, int = 1) *)
+Theorem mk32_wf p : admissible p -> exists F, mk32 p = Some F /\ m_p F = p /\ wf32 F.
+Proof.
+  intros Hadm. destruct (adm_bounds p Hadm) as (H3 & HpB & HpBW & HpW).
+  pose proof param_B_pos as HB0. pose proof param_B_word as HBW. pose proof param_halfbits as Hh.
+  unfold mk32.
+  rewrite (u32_small p) by lia.
+  assert (HBp : 0 <= B32 mod p < p) by (apply Z.mod_pos_bound; lia).
+  rewrite (u32_small (B32 mod p)) by lia.
+  assert (Hsh : forall x, Z.shiftl x HALF_BITS32 = x * B32).
+  { intros x. rewrite Z.shiftl_mul_pow2 by lia. rewrite <- param_B. reflexivity. }
+  rewrite !Hsh.
+  rewrite (u32_small (B32 mod p * B32)) by nia.
+  assert (E2 : (B32 mod p * B32) mod p = (B32 * B32) mod p) by (apply Z.mul_mod_idemp_l; lia).
+  rewrite E2.
+  assert (HB2 : 0 <= (B32 * B32) mod p < p) by (apply Z.mod_pos_bound; lia).
+  rewrite (u32_small ((B32 * B32) mod p)) by lia.
+  rewrite (u32_small ((B32 * B32) mod p * B32)) by nia.
+  assert (E3 : ((B32 * B32) mod p * B32) mod p = (B32 * B32 * B32) mod p) by (apply Z.mul_mod_idemp_l; lia).
+  rewrite E3.
+  assert (HB3 : 0 <= (B32 * B32 * B32) mod p < p) by (apply Z.mod_pos_bound; lia).
+  rewrite (u32_small ((B32 * B32 * B32) mod p)) by lia.
+  assert (Hg : Z.gcd B32 p = 1) by (rewrite param_B; apply gcd_odd_pow2; [lia | apply Hadm]).
+  destruct (invext_spec u32 (W32 - 1) p B32 (proj1 u32_s32_small_facts) ltac:(rewrite W32_eq in *; unfold B32 in *; lia) ltac:(lia) Hg)
+    as (x & Ex & Hx & Hc).
+  rewrite Ex.
+  assert (Hx0 : x <> 0).
+  { intros ->. unfold eqm in Hc. rewrite Z.mul_0_l in Hc. rewrite Z.mod_0_l, Z.mod_1_l in Hc by (unfold B32; lia). discriminate. }
+  rewrite (u32_small (B32 - x)) by lia.
+  rewrite (u32_small (p - B32 mod p)) by lia.
+  eexists. split; [reflexivity|]. split; [reflexivity|].
+  constructor; cbn [m_p m_Bp m_B2p m_B3p m_nim m_one m_mOne]; try reflexivity; try exact Hadm; try lia.
+  change (eqm B32 (p * (B32 - x) + 1) 0).
+  replace (p * (B32 - x) + 1) with (B32 * p - x * p + 1) by ring.
+  rewrite (eqm_mul_n_l B32 p). rewrite Hc. reflexivity.
 Qed.
